@@ -128,6 +128,34 @@ def check_one(desc, sp_tier, lib, M, viol, C):
             s3 = obj2.to_string()
             if s3 != s1:
                 viol("consumed-message-serialises-differently", "kind=%s" % tag, "before %r after %r" % (s1, s3), {"desc": desc, "step": "consume"})
+    # a message changed in place AFTER it has been serialised serialises as what it now says (nothing remembered from
+    # the earlier rendering): a child's value, a child's name, an attribute of the message
+    if desc[3]:
+        ct, ca, ctext = desc[3][0]
+        try:
+            m1 = lib.build(desc)
+            m1.to_string()
+            newname = "renamed"
+            m1.children[0].name = newname
+            want_desc = (desc[0], desc[1], desc[2], ((ct, tuple((k_, newname if k_ == "name" else v_) for k_, v_ in ca), ctext),) + tuple(desc[3][1:]))
+            sa, sb = m1.to_string(), lib.build(want_desc).to_string()
+            n += 1
+            if sa != sb:
+                viol("stale-serialisation", "kind=%s,child-changed-in-place" % tag, "after renaming the first child: %r, a fresh message says %r" % (sa, sb), {"desc": desc, "step": "mutate"})
+        except Exception:
+            pass
+    if any(k_ == "device" for k_, _ in desc[1]):
+        try:
+            m2 = lib.build(desc)
+            m2.to_string()
+            m2.device = "OTHERDEV"
+            want_desc = (desc[0], tuple((k_, "OTHERDEV" if k_ == "device" else v_) for k_, v_ in desc[1]), desc[2], desc[3])
+            sa, sb = m2.to_string(), lib.build(want_desc).to_string()
+            n += 1
+            if sa != sb:
+                viol("stale-serialisation", "kind=%s,attribute-changed-in-place" % tag, "after changing the device: %r, a fresh message says %r" % (sa, sb), {"desc": desc, "step": "mutate"})
+        except Exception:
+            pass
     for sp in G.spellings(sp_tier):
         text = G.serialise(desc, sp)
         n += 1
